@@ -98,6 +98,7 @@ def execute(scn, seed, plans=None, snapshots=True, keep=False, stop_after=None, 
     arch.mkdir()
     S.materialize(scn, root)
     world = sim.Sim(root, scn, seed, plans)
+    world.disable_git = bool(scn.get("disable_git"))
     run = Run(scn, seed)
     run.root = root
     run.work = work
@@ -116,8 +117,13 @@ def execute(scn, seed, plans=None, snapshots=True, keep=False, stop_after=None, 
                     world.count("fault.clock_step_back")
             st.clock = world.clock
             st.git = copy.deepcopy(world.git_state)
-            st.disable_git = bool(scn.get("disable_git"))
             k = op["op"]
+            if k == "config":
+                world.disable_git = bool(op.get("disable_git"))
+                (root / "cond_config.toml").write_text("disable_git = true\n" if world.disable_git else "")
+                st.disable_git = world.disable_git
+                continue
+            st.disable_git = world.disable_git
             if k == "git":
                 _git_op(world, op)
                 continue
